@@ -8,23 +8,39 @@ from concurrent.futures import ThreadPoolExecutor
 from tools.lib import framework
 from tools.harness import c11_util as U
 
-CLAIMED = False
+CLAIMED = True
 CONFIG = {'assumptions': [
     'zlib is an oracle: inflate(data, max_length) answers are computed by CPython zlib and handed to the model as a table; '
-    'feeding 4096-byte chunks + flush() equals one decompress() call',
-    'file system behind stream_loader = dict name -> bytes',
+    'feeding 4096-byte chunks + flush() equals one decompress() call; in Coq it is a Section variable, the theorems assume '
+    'only the law deflated(blob, content): inflate blob 0 = (content, eof) and inflate blob n = (content[:n], len(content) <= n)',
+    'file system behind stream_loader = dict name -> bytes (an arbitrary function in the theorems)',
     'applying relocations is C08: the view records WHICH relocation section is applied to WHAT content '
     '(observed by wrapping RelocationHandler.apply_section_relocations); full dumps use the real relocation code',
     'section names compared as bytes (ASCII names)',
     '.eh_frame of a file reached through a debug link is not compared with the stripped file (objcopy --only-keep-debug '
     'turns it into NOBITS by construction)']}
-LEVEL = {'text': 'Machine-checked: the view handed to DWARFInfo is unchanged by gABI compression (any zlib stream of the data), '
-                 'by the legacy .zdebug framing chosen per section, by a CRC-verified debug link and by either encoding of a '
-                 'supplementary link; presence formula; CRC-32 model = polynomial division; rejection of bad framing, size '
-                 'mismatch and CRC mismatch. Model pinned to the code by a correspondence over compiler-produced seeds '
-                 '(gcc/clang, DWARF 2-5, 32/64-bit, relocatable and linked) re-encoded by the Coq builders and by objcopy.',
-         'design_ref': '4.11', 'technique': 'Coq proof (round trips of the framings, list lemmas) + extracted-model correspondence',
-         'note': 'Trusted: Coq kernel, extraction, harness, zlib as an oracle with the stated hypotheses. No axioms.'}
+LEVEL = {'text': 'Machine-checked, 18 theorems closed under the global context, universally quantified over the zlib oracle, '
+                 'the loader and the reader of linked files: the view handed to DWARFInfo (configuration, 19 section slots with '
+                 'content / size / address / relocation section, supplementary view) of ANY abstract file is unchanged by gABI '
+                 'compression of any set of plainly stored sections (any reserved word, alignment, offset, following bytes, any '
+                 'complete zlib stream) [C11_view_invariant_gabi, C11_view_depends_on_payloads] and by the legacy .zdebug framing '
+                 'decided per name with relocation sections renamed along, mixed namings included [C11_view_invariant_zgnu; the '
+                 'per-name hypothesis is shown necessary by an Example]; through a .gnu_debuglink with the right CRC it IS the '
+                 'linked file\'s view, with a wrong CRC there is none, unfollowed links are inert [C11_view_through_debuglink, '
+                 'C11_debuglink_crc_mismatch_no_view, C11_debuglink_inert]; .gnu_debugaltlink and .debug_sup give the same '
+                 'supplementary view = the supplementary file\'s own view, None without loader/follow_links [C11_view_altlink, '
+                 'C11_view_debugsup]; the model\'s has_dwarf_info equals the presence formula on every file the model of ELFFile() '
+                 'returns [C11_presence_exact(_img)]; bitwise CRC-32 = polynomial division, chunked = whole file; the model raises '
+                 'ELFError on CRC mismatch, AssertionError on bad legacy framing, ELFCompressionError when the declared size differs '
+                 'from the inflated size in either direction (+ the pre-d25be29 acceptance as a witnessed theorem). '
+                 'NOT proved, pinned by the correspondence on every generated case (impl = model = spec three-way): that the '
+                 'model of get_dwarf_info computes the specification\'s debug_view; the DWARF dump being a function of the view '
+                 '(full DIE/line/CFI dumps of re-encoded compiler-produced seeds are compared).',
+         'design_ref': '4.11', 'technique': 'Coq proof (layout round trip for Elf_Chdr, list/name lemmas, case analysis of the renaming) '
+                                            '+ extracted-model correspondence',
+         'note': 'Trusted: Coq kernel, extraction, harness, zlib as an oracle with the stated law (satisfiable: the stored codec, '
+                 'Example C11_ex_oracle_law_satisfiable). No axioms. In-domain for the re-encoding kinds = the extracted Coq hypotheses '
+                 '(gabi_choice_ok / zgnu_choice_ok && plain_names && no_phantom) hold.'}
 RULE = ('cases: every seed object under seeds/c11 and every ELF under test/testfiles_for_unittests, plain and re-encoded '
         '(gABI and legacy framing built by the Coq encoders at zlib levels 0-9, all/some/only-shrinking sections; objcopy '
         'zlib / zlib-gnu / only-keep-debug + debuglink variants; debug links with right and wrong CRC, with and without a '
@@ -334,6 +350,8 @@ def gen(ctx):
         cases.append(('link', [src, 'own', 'right', 0, 1, 'plain']))      # follow_links=False
         cases.append(('link', [src, 'own', 'right', 1, 0, 'plain']))      # no loader
         cases.append(('link', [src, 'own', 'right', 1, 2, 'plain']))      # loader without the file
+    for k, name in enumerate(seeds):                      # single-bit CRC errors in every byte of the checksum
+        cases.append(('link', ['seed:' + name, 'own', 'flip%d' % [31, 24, 16, 8, 0][k % 5], 1, 1, 'plain']))
     cases.append(('link', ['seed:gcc_d5_exe', 'zdbg', 'right', 1, 1, 'plain']))
     cases.append(('link', ['test:debuglink', 'testpair', 'right', 1, 1, 'plain']))
     for name in seeds[:ctx.scale(3, len(seeds))]:
@@ -630,10 +648,14 @@ def h_reencode(ctx, kind, a):
             coq = ['t_gabi', orig, [[i, rsv, al, 0, blob] for i, k, rsv, al, blob in plan], tbl]
         else:
             coq = ['t_zgnu', orig, [[i, 0, blob] for i, k, blob in plan], tbl]
-        (m, s_t), (mo, s_o), wf, s_coq = yield [_view_req(timg, None, 1, 0, False, tbl), _view_req(orig, None, 1, 0, False, tbl),
-                                                 ['wf', orig], coq]
+        okreq = ['ok_gabi' if kind == 'gabi' else 'ok_zgnu', orig, coq[2]]
+        (m, s_t), (mo, s_o), wf, s_coq, ok = yield [_view_req(timg, None, 1, 0, False, tbl),
+                                                     _view_req(orig, None, 1, 0, False, tbl), ['wf', orig], coq, okreq]
         spec = canon_spec(s_o)                            # the theorem's right-hand side: the view of the ORIGINAL
-        indom = spec != 'rejected' and wf[0] == 'ok' and (kind == 'gabi' or (wf[1][0] == 1 and wf[1][1] == 1))
+        # in the theorem's domain = its executable hypotheses (gabi_choice_ok / zgnu_choice_ok && plain_names &&
+        # no_phantom, evaluated by the extracted Coq predicates) hold and the original is readable
+        indom = spec != 'rejected' and wf[0] == 'ok' and ok[0] == 'ok' and ok[1] == 1
+        ctx.bump('theorem_hypotheses', '%s-%s' % (kind, 'hold' if (ok[0] == 'ok' and ok[1] == 1) else 'fail'))
         _record_view(ctx, kind, a, iv, m, spec, in_domain=indom, nontrivial=nt, detail={'sections': len(plan)})
         if indom:                                         # the Python placement and the Coq transform describe the same file
             ctx.record(kind + '_builder', a, impl=canon_spec(s_t), spec=canon_spec(s_coq), model=None, in_domain=True,
@@ -698,6 +720,8 @@ def h_link(ctx, kind, a):
             crc = (crc + 1) % 2 ** 32
         elif crcmode == 'flip':
             crc ^= 1 << (len(dbg) % 32)
+        elif crcmode.startswith('flip'):
+            crc ^= 1 << int(crcmode[4:])
         (body,) = yield [['debuglink_body', elf.le, name, b'\0' * (3 - len(name) % 4), crc]]
         stripped = strip_debug(elf, body)
         orig = elf.img
